@@ -148,5 +148,269 @@ pub proof fn lemma_cache_gives_max(x: Seq<T>, s: int, e: int, idx: Option<usize>
     }
 //@end
 
+//@fn name=ts_vmax_to crate=tea-rolling ctx="pub trait RollingValidCmp" props=C03,C05,C10 arith=C05
+//@types T::Inner=i64
+//@sig fn ts_vmax_to<V: RollingDrivers<T>, O: Vec1<U>>(this: &V, window: usize, min_periods: Option<usize>, out: Option<&mut O::Buf>) -> (r: Option<O>)
+//@replace min(this.len(), window) => usize_min(this.len(), window)
+//@spec
+    requires
+        out matches Some(o) ==> buf_fresh(o, this.view().len()),
+        window >= 1,
+    ensures
+        delivered_each(r, match out { Some(o) => Some(final(o).written()), None => None }, this.view().len(),                    // #C05 one_output_per_input
+            |i: int, o: U| vmax_spec(wnd(this.view(), window, i), mp_cmp(min_periods, window, this.view().len()), o)),             // #C03,C05 maximum_of_window
+//@closure 1 name=CloVmax generics="<'a, V: RollingDrivers<T>>" generics_use="<'a, V>" trait="RollingIdxFn<T, U>" params="start: Option<usize>, end: usize, v: T" ret="(res: U)" push="CallIdx { start: start, end: end, v: v, out: __r }" callty="CallIdx<T, U>" caps="mut max: Option<i64>, mut max_idx: Option<usize>, mut n: usize, this: &'a V, min_periods: usize"
+//@closure 1 extra
+    open spec fn hist(&self) -> Seq<CallIdx<T, U>> { self.h@ }
+    open spec fn series(&self) -> Seq<T> { self.this.view() }
+//@closure 1 inv
+        let h = self.h@;
+        let x = self.this.view();
+        &&& h.len() == 0 ==> self.max_idx.is_none() && self.max.is_none() && self.n == 0
+        &&& h.len() > 0 ==> {
+            let e = h.len() - 1;
+            let s = ostart(h.last().start);
+            &&& h.last().end == e && e < x.len() && 0 <= s <= e
+            &&& cache_ok(x, s, e, self.max_idx, self.max, false)                                                        // #C03 cached_maximum_describes_window
+            &&& self.n as int == cntr(x, s + (if h.last().start.is_some() { 1int } else { 0int }), e + 1)              // #C03,C05 count_describes_window
+        }
+        &&& idx_outs_ok(h, x, |w: Seq<T>, o: U| vmax_spec(w, self.min_periods as int, o))
+//@at closure 1 first
+        let ghost x = self.this.view();
+        let ghost h0 = self.h@;
+        let ghost s_new = ostart(start);
+        proof {
+            // count of the previous window after its removal == count of [s_new, end)
+            if h0.len() > 0 {
+                assert(s_new == ostart(h0.last().start) + (if h0.last().start.is_some() { 1int } else { 0int }));
+                lemma_cntr_bounds(x, s_new, end as int);
+            } else {
+                lemma_cntr_empty(x, 0);
+            }
+            lemma_cntr_push(x, s_new, end as int);
+            lemma_cntr_bounds(x, s_new, end as int + 1);
+            if start.is_some() { lemma_cntr_pop(x, s_new, end as int + 1); }
+        }
+//@loop 1
+                        invariant
+                            x == this.view(), start <= end, end < x.len(), x.len() <= usize::MAX,
+                            i == start ==> max == x[start as int],
+                            i > start ==> cache_ok(x, start as int, i - 1, max_idx, max, false),
+//@at closure 1 last
+        proof {
+            assert(cache_ok(x, s_new, end as int, max_idx, max, false));                          // #C03 cached_maximum_describes_window
+            lemma_cache_gives_max(x, s_new, end as int, max_idx, max);
+            let c = CallIdx { start: start, end: end, v: v, out: __r };
+            assert(vmax_spec(x.subrange(s_new, end as int + 1), self.min_periods as int, __r));   // #C03,C05 output_is_window_maximum
+            lemma_idx_outs_step(h0, c, x, |w: Seq<T>, o: U| vmax_spec(w, self.min_periods as int, o));
+        }
+//@at body first
+    let ghost mp0 = min_periods;
+    let ghost out0 = out;
+    let ghost window0 = window;
+//@at body last
+    proof {
+        let h = __clo1.h@;
+        let x = this.view();
+        let s = outs_idx(h);
+        if x.len() > 0 {
+            let p = |i: int, o: U| vmax_spec(wnd(x, window0, i), mp_cmp(mp0, window0, x.len()), o);
+            assert forall|i: int| 0 <= i < s.len() implies p(i, #[trigger] s[i]) by {
+                lemma_idx_window_is_wnd(h, x, window, window0, i);
+            }
+            lemma_delivered_each(__ret, match out0 { Some(o) => Some(final(o).written()), None => None }, s, p);
+        }
+        // empty in, empty out (window clamps to 0: nothing called, nothing written)
+    }
+//@end
+
+// ---- arg-extrema (C03): 1-based offset from the window start of the MOST RECENT position holding the extreme
+pub open spec fn is_argext(w: Seq<T>, j: int, asc: bool) -> bool {
+    &&& 0 <= j < w.len() && w[j].is_some()
+    &&& forall|t: int| 0 <= t < w.len() ==> (if asc { le(w[j], #[trigger] w[t]) } else { ge_rev(w[j], #[trigger] w[t]) })
+    &&& forall|t: int| j < t < w.len() ==> (if asc { lt(w[j], #[trigger] w[t]) } else { gt_rev(w[j], #[trigger] w[t]) })
+}
+pub open spec fn varg_spec(w: Seq<T>, mp: int, o: f64, asc: bool) -> bool {
+    if cnt(vals(w)) >= mp {
+        // defined as soon as the window holds a non-null element; an all-null window with min_periods 0 is left unspecified
+        cnt(vals(w)) > 0 ==> !nan(o) && exists|j: int| is_argext(w, j, asc) && rv(o) == (j + 1) as real
+    } else { nan(o) }
+}
+pub proof fn lemma_cache_gives_arg(x: Seq<T>, s: int, e: int, idx: Option<usize>, cached: T, asc: bool)
+    requires 0 <= s <= e < x.len(), cache_ok(x, s, e, idx, cached, asc), cntr(x, s, e + 1) > 0,
+    ensures is_argext(x.subrange(s, e + 1), idx.unwrap() as int - s, asc),
+{
+    let w = x.subrange(s, e + 1);
+    let j = idx.unwrap() as int;
+    assert(w[j - s] == x[j]);
+    // a non-null element exists, so the null-last extreme is non-null
+    lemma_cnt_pos_has_some(vals(w));
+    let t0 = choose|t: int| 0 <= t < w.len() && (#[trigger] vals(w)[t]).is_some();
+    assert(w[t0] == x[s + t0]);
+    assert(if asc { le(x[j], x[s + t0]) } else { ge_rev(x[j], x[s + t0]) });
+    assert forall|t: int| 0 <= t < w.len() implies (if asc { le(w[j - s], #[trigger] w[t]) } else { ge_rev(w[j - s], #[trigger] w[t]) }) by { assert(w[t] == x[s + t]); }
+    assert forall|t: int| j - s < t < w.len() implies (if asc { lt(w[j - s], #[trigger] w[t]) } else { gt_rev(w[j - s], #[trigger] w[t]) }) by { assert(w[t] == x[s + t]); }
+}
+
+//@fn name=ts_vargmin_to crate=tea-rolling ctx="pub trait RollingValidCmp" props=C03,C05,C10 arith=C05
+//@types T::Inner=i64
+//@sig fn ts_vargmin_to<V: RollingDrivers<T>, O: Vec1<f64>>(this: &V, window: usize, min_periods: Option<usize>, out: Option<&mut O::Buf>) -> (r: Option<O>)
+//@replace min(this.len(), window) => usize_min(this.len(), window)
+//@spec
+    requires
+        out matches Some(o) ==> buf_fresh(o, this.view().len()),
+        window >= 1,
+    ensures
+        delivered_each(r, match out { Some(o) => Some(final(o).written()), None => None }, this.view().len(),                    // #C05 one_output_per_input
+            |i: int, o: f64| varg_spec(wnd(this.view(), window, i), mp_cmp(min_periods, window, this.view().len()), o, true)),             // #C03,C05 minimum_of_window
+//@closure 1 name=CloVargmin generics="<'a, V: RollingDrivers<T>>" generics_use="<'a, V>" trait="RollingIdxFn<T, f64>" params="start: Option<usize>, end: usize, v: T" ret="(res: f64)" push="CallIdx { start: start, end: end, v: v, out: __r }" callty="CallIdx<T, f64>" caps="mut min: Option<i64>, mut min_idx: Option<usize>, mut n: usize, this: &'a V, min_periods: usize"
+//@closure 1 extra
+    open spec fn hist(&self) -> Seq<CallIdx<T, f64>> { self.h@ }
+    open spec fn series(&self) -> Seq<T> { self.this.view() }
+//@closure 1 inv
+        let h = self.h@;
+        let x = self.this.view();
+        &&& h.len() == 0 ==> self.min_idx.is_none() && self.min.is_none() && self.n == 0
+        &&& h.len() > 0 ==> {
+            let e = h.len() - 1;
+            let s = ostart(h.last().start);
+            &&& h.last().end == e && e < x.len() && 0 <= s <= e
+            &&& cache_ok(x, s, e, self.min_idx, self.min, true)                                                        // #C03 cached_minimum_describes_window
+            &&& self.n as int == cntr(x, s + (if h.last().start.is_some() { 1int } else { 0int }), e + 1)              // #C03,C05 count_describes_window
+        }
+        &&& idx_outs_ok(h, x, |w: Seq<T>, o: f64| varg_spec(w, self.min_periods as int, o, true))
+//@at closure 1 first
+        let ghost x = self.this.view();
+        let ghost h0 = self.h@;
+        let ghost s_new = ostart(start);
+        proof {
+            // count of the previous window after its removal == count of [s_new, end)
+            if h0.len() > 0 {
+                assert(s_new == ostart(h0.last().start) + (if h0.last().start.is_some() { 1int } else { 0int }));
+                lemma_cntr_bounds(x, s_new, end as int);
+            } else {
+                lemma_cntr_empty(x, 0);
+            }
+            lemma_cntr_push(x, s_new, end as int);
+            lemma_cntr_bounds(x, s_new, end as int + 1);
+            if start.is_some() { lemma_cntr_pop(x, s_new, end as int + 1); }
+        }
+//@loop 1
+                        invariant
+                            x == this.view(), start <= end, end < x.len(), x.len() <= usize::MAX,
+                            i == start ==> min == x[start as int],
+                            i > start ==> cache_ok(x, start as int, i - 1, min_idx, min, true),
+//@at closure 1 last
+        proof {
+            assert(cache_ok(x, s_new, end as int, min_idx, min, true));                          // #C03 cached_extreme_describes_window
+            if cntr(x, s_new, end as int + 1) > 0 { lemma_cache_gives_arg(x, s_new, end as int, min_idx, min, true); }
+            let c = CallIdx { start: start, end: end, v: v, out: __r };
+            assert(varg_spec(x.subrange(s_new, end as int + 1), self.min_periods as int, __r, true));   // #C03,C05 output_is_offset_of_most_recent_extreme
+            lemma_idx_outs_step(h0, c, x, |w: Seq<T>, o: f64| varg_spec(w, self.min_periods as int, o, true));
+        }
+//@closure 1.1 mode=annotate params="min_idx: usize" ret="(q: f64)"
+//@closure 1.1 spec
+                                requires min_idx as int >= ostart(start), min_idx <= end,
+                                ensures !nan(q), rv(q) == (min_idx as int - ostart(start) + 1) as real
+//@at body first
+    let ghost mp0 = min_periods;
+    let ghost out0 = out;
+    let ghost window0 = window;
+//@at body last
+    proof {
+        let h = __clo1.h@;
+        let x = this.view();
+        let s = outs_idx(h);
+        if x.len() > 0 {
+            let p = |i: int, o: f64| varg_spec(wnd(x, window0, i), mp_cmp(mp0, window0, x.len()), o, true);
+            assert forall|i: int| 0 <= i < s.len() implies p(i, #[trigger] s[i]) by {
+                lemma_idx_window_is_wnd(h, x, window, window0, i);
+            }
+            lemma_delivered_each(__ret, match out0 { Some(o) => Some(final(o).written()), None => None }, s, p);
+        }
+        // empty in, empty out (window clamps to 0: nothing called, nothing written)
+    }
+//@end
+
+//@fn name=ts_vargmax_to crate=tea-rolling ctx="pub trait RollingValidCmp" props=C03,C05,C10 arith=C05
+//@types T::Inner=i64
+//@sig fn ts_vargmax_to<V: RollingDrivers<T>, O: Vec1<f64>>(this: &V, window: usize, min_periods: Option<usize>, out: Option<&mut O::Buf>) -> (r: Option<O>)
+//@replace min(this.len(), window) => usize_min(this.len(), window)
+//@spec
+    requires
+        out matches Some(o) ==> buf_fresh(o, this.view().len()),
+        window >= 1,
+    ensures
+        delivered_each(r, match out { Some(o) => Some(final(o).written()), None => None }, this.view().len(),                    // #C05 one_output_per_input
+            |i: int, o: f64| varg_spec(wnd(this.view(), window, i), mp_cmp(min_periods, window, this.view().len()), o, false)),             // #C03,C05 maximum_of_window
+//@closure 1 name=CloVargmax generics="<'a, V: RollingDrivers<T>>" generics_use="<'a, V>" trait="RollingIdxFn<T, f64>" params="start: Option<usize>, end: usize, v: T" ret="(res: f64)" push="CallIdx { start: start, end: end, v: v, out: __r }" callty="CallIdx<T, f64>" caps="mut max: Option<i64>, mut max_idx: Option<usize>, mut n: usize, this: &'a V, min_periods: usize"
+//@closure 1 extra
+    open spec fn hist(&self) -> Seq<CallIdx<T, f64>> { self.h@ }
+    open spec fn series(&self) -> Seq<T> { self.this.view() }
+//@closure 1 inv
+        let h = self.h@;
+        let x = self.this.view();
+        &&& h.len() == 0 ==> self.max_idx.is_none() && self.max.is_none() && self.n == 0
+        &&& h.len() > 0 ==> {
+            let e = h.len() - 1;
+            let s = ostart(h.last().start);
+            &&& h.last().end == e && e < x.len() && 0 <= s <= e
+            &&& cache_ok(x, s, e, self.max_idx, self.max, false)                                                        // #C03 cached_maximum_describes_window
+            &&& self.n as int == cntr(x, s + (if h.last().start.is_some() { 1int } else { 0int }), e + 1)              // #C03,C05 count_describes_window
+        }
+        &&& idx_outs_ok(h, x, |w: Seq<T>, o: f64| varg_spec(w, self.min_periods as int, o, false))
+//@at closure 1 first
+        let ghost x = self.this.view();
+        let ghost h0 = self.h@;
+        let ghost s_new = ostart(start);
+        proof {
+            // count of the previous window after its removal == count of [s_new, end)
+            if h0.len() > 0 {
+                assert(s_new == ostart(h0.last().start) + (if h0.last().start.is_some() { 1int } else { 0int }));
+                lemma_cntr_bounds(x, s_new, end as int);
+            } else {
+                lemma_cntr_empty(x, 0);
+            }
+            lemma_cntr_push(x, s_new, end as int);
+            lemma_cntr_bounds(x, s_new, end as int + 1);
+            if start.is_some() { lemma_cntr_pop(x, s_new, end as int + 1); }
+        }
+//@loop 1
+                        invariant
+                            x == this.view(), start <= end, end < x.len(), x.len() <= usize::MAX,
+                            i == start ==> max == x[start as int],
+                            i > start ==> cache_ok(x, start as int, i - 1, max_idx, max, false),
+//@at closure 1 last
+        proof {
+            assert(cache_ok(x, s_new, end as int, max_idx, max, false));                          // #C03 cached_extreme_describes_window
+            if cntr(x, s_new, end as int + 1) > 0 { lemma_cache_gives_arg(x, s_new, end as int, max_idx, max, false); }
+            let c = CallIdx { start: start, end: end, v: v, out: __r };
+            assert(varg_spec(x.subrange(s_new, end as int + 1), self.min_periods as int, __r, false));   // #C03,C05 output_is_offset_of_most_recent_extreme
+            lemma_idx_outs_step(h0, c, x, |w: Seq<T>, o: f64| varg_spec(w, self.min_periods as int, o, false));
+        }
+//@closure 1.1 mode=annotate params="max_idx: usize" ret="(q: f64)"
+//@closure 1.1 spec
+                                requires max_idx as int >= ostart(start), max_idx <= end,
+                                ensures !nan(q), rv(q) == (max_idx as int - ostart(start) + 1) as real
+//@at body first
+    let ghost mp0 = min_periods;
+    let ghost out0 = out;
+    let ghost window0 = window;
+//@at body last
+    proof {
+        let h = __clo1.h@;
+        let x = this.view();
+        let s = outs_idx(h);
+        if x.len() > 0 {
+            let p = |i: int, o: f64| varg_spec(wnd(x, window0, i), mp_cmp(mp0, window0, x.len()), o, false);
+            assert forall|i: int| 0 <= i < s.len() implies p(i, #[trigger] s[i]) by {
+                lemma_idx_window_is_wnd(h, x, window, window0, i);
+            }
+            lemma_delivered_each(__ret, match out0 { Some(o) => Some(final(o).written()), None => None }, s, p);
+        }
+        // empty in, empty out (window clamps to 0: nothing called, nothing written)
+    }
+//@end
+
 } // verus!
 fn main() {}
